@@ -46,7 +46,7 @@ func (r *router) startServer(cfg *ServerConfig) (func(), error) {
 		if err != nil {
 			return nil, err
 		}
-		return func() { s.Shutdown() }, nil
+		return func() { s.Close() }, nil
 	case "https":
 		s, err := r.startHttpServer(cfg, true)
 		if err != nil {
